@@ -1,5 +1,6 @@
 pub mod c01;
 pub mod c03;
+pub mod c04_typed;
 pub mod acc;
 pub mod c05;
 pub mod cobs;
@@ -25,7 +26,10 @@ pub fn run(id: &str, tier: Tier, seed: u64) -> i32 {
         "C01" => c01::run(&ctx, false),
         "C02" => c01::run(&ctx, true),
         "C03" => c03::run(&ctx, false),
-        "C04" => c03::run(&ctx, true),
+        "C04" => {
+            c03::run(&ctx, true);
+            c04_typed::run(&ctx);
+        }
         "C05" => c05::run(&ctx),
         "C06" => cobs::run_c06(&ctx),
         "C07" => cobs::run_c07(&ctx),
@@ -50,9 +54,80 @@ pub fn run(id: &str, tier: Tier, seed: u64) -> i32 {
     ctx.finish()
 }
 
-pub fn replay(_path: &str) -> i32 {
-    eprintln!("replay not implemented yet");
-    2
+/// Re-run a recorded violation. Single-case fast paths exist for the decoder checks (shape + input)
+/// and the accumulator graph (state + chunk); every other replay re-runs the property's check at the
+/// recorded tier. In all cases the run is done TWICE and must report the same class with the same
+/// minimal case both times (determinism), otherwise exit 2.
+pub fn replay(path: &str) -> i32 {
+    let doc: serde_json::Value = match std::fs::read_to_string(path).ok().and_then(|s| serde_json::from_str(&s).ok()) {
+        Some(d) => d,
+        None => {
+            eprintln!("cannot read replay file {path}");
+            return 2;
+        }
+    };
+    let id = doc["property"].as_str().unwrap_or("").to_string();
+    let class = doc["class"].as_str().unwrap_or("").to_string();
+    let case = doc["case"].clone();
+    let tier = if doc["tier"].as_str() == Some("thorough") { Tier::Thorough } else { Tier::Quick };
+    let mut observed = vec![];
+    for round in 0..2 {
+        let level = if id == "C05" || id == "C11" { "fault_enumeration" } else { "model_checking" };
+        let ctx = Ctx::new(&format!("{id}-replay"), tier, 0, level);
+        let single = match (id.as_str(), case.get("shape"), case.get("input")) {
+            ("C03" | "C04", Some(sh), Some(inp)) => {
+                let shape: vmodel::shape::Shape = serde_json::from_value(sh.clone()).expect("shape");
+                let bytes: Vec<u8> = inp.as_str().unwrap_or("").split_whitespace().map(|b| u8::from_str_radix(b, 16).unwrap()).collect();
+                let mut st = c03::LocalStats::default();
+                let opts = c03::CmpOpts::new(id == "C04", &shape);
+                crate::dynval::with_shape(&shape, || c03::compare_decode(&ctx, &shape, &bytes, 0, &mut st, &opts));
+                true
+            }
+            _ => false,
+        };
+        if !single {
+            match id.as_str() {
+                "C01" => c01::run(&ctx, false),
+                "C02" => c01::run(&ctx, true),
+                "C03" => c03::run(&ctx, false),
+                "C04" => c03::run(&ctx, true),
+                "C05" => c05::run(&ctx),
+                "C06" => cobs::run_c06(&ctx),
+                "C07" => cobs::run_c07(&ctx),
+                "C08" => acc::run(&ctx, false),
+                "C09" => acc::run(&ctx, true),
+                "C10" => crc::run(&ctx),
+                "C11" => io::run(&ctx),
+                "C12" => maxsize::run(&ctx),
+                "C13" => fixint::run(&ctx),
+                "C14" => schema_typed::run(&ctx),
+                "C15" => schema::run_c15(&ctx),
+                "C16" => schema::run_c16(&ctx),
+                "C17" => dynchk::run_c17(&ctx),
+                "C18" => dynchk::run_c18(&ctx),
+                "C19" => schema::run_c19(&ctx),
+                "C20" => stacks::run(&ctx),
+                _ => {
+                    eprintln!("unknown property in replay file");
+                    return 2;
+                }
+            }
+        }
+        let got = ctx.violations_snapshot();
+        let hit = got.iter().find(|(c, _, _)| *c == class).cloned();
+        println!("replay round {}: {}", round + 1, match &hit { Some((c, w, _)) => format!("REPRODUCED class={c}: {w}"), None => format!("not reproduced (classes seen: {:?})", got.iter().map(|g| g.0.clone()).collect::<Vec<_>>()) });
+        observed.push(hit.map(|(c, w, case)| (c, w, case.to_string())));
+    }
+    if observed[0] != observed[1] {
+        eprintln!("MACHINERY: the two replay rounds differ (non-determinism)");
+        return 2;
+    }
+    if observed[0].is_some() {
+        println!("VIOLATION property={id} replay={path}");
+        1
+    } else {
+        0
+    }
 }
 
 pub fn worker(args: &[String]) -> i32 {
